@@ -1,6 +1,7 @@
 package props
 
 import (
+	"unicode/utf8"
 	"encoding/json"
 	"fmt"
 	"os"
@@ -313,6 +314,47 @@ func checkC10(c C10Case) Verdict {
 	other := []ref.Cmd{{K: "msg", Desc: "other", Body: []ref.Cmd{txt("Some other message "), {K: "print", Expr: &ref.Expr{Op: "int", I: 1}}}}, txt("text")}
 	if err := same("surrounded by other code and messages", progWith(c.Cmds, other, []ref.Cmd{{K: "if", Branches: []ref.Branch{{Cond: &ref.Expr{Op: "bool", B: true}, Body: other}}}}), false, 1); err != nil {
 		return bad(true, "%v", err)
+	}
+	// next to a message that uses the same tags, where they need other names: every tag of the message
+	// (the very same text) beside a tag of its kind with another attribute
+	{
+		var twins []ref.Cmd
+		var collect func(cs []ref.Cmd)
+		seenTag := map[string]bool{}
+		collect = func(cs []ref.Cmd) {
+			for _, x := range cs {
+				if x.K == "text" {
+					for _, tag := range tagRe.FindAllString(ref.NormalizeText(x.Text), -1) {
+						if seenTag[tag] || len(tag) < 3 || !utf8.ValidString(tag) {
+							continue
+						}
+						seenTag[tag] = true
+						other := tag[:len(tag)-1] + " data-zz=\"1\">"
+						if strings.HasSuffix(tag, "/>") {
+							other = tag[:len(tag)-2] + " data-zz=\"1\"/>"
+						}
+						twins = append(twins, txt(other+" x "+tag+" y "))
+					}
+				}
+				for _, br := range x.Branches {
+					collect(br.Body)
+				}
+				collect(x.Else)
+			}
+		}
+		collect(msg.Body)
+		if len(twins) > 0 {
+			neighbour := []ref.Cmd{{K: "msg", Desc: "a neighbour with the same tags", Body: twins}}
+			for _, before := range []bool{false, true} {
+				pw := progWith(c.Cmds, nil, neighbour)
+				if before {
+					pw = progWith(c.Cmds, neighbour, nil)
+				}
+				if err := same(fmt.Sprintf("next to a message with the same tags under other names (in front: %v)", before), pw, false, 0); err != nil {
+					return bad(true, "%v", err)
+				}
+			}
+		}
 	}
 	// the same message inside every kind of block (its lets travel with it)
 	wrap := map[string]func(body []ref.Cmd) []ref.Cmd{
